@@ -14,6 +14,9 @@ CHECKS = {
     "C04": ("pbt-values", "same generated program as C03: both directions of each checker vs exact rational predicates; float reps with a stated exclusion band",
             "Exploration: exact agreement (iff) of will_conversion_overflow/truncate/is_conversion_lossy with rational-arithmetic predicates on all 8/16-bit values, boundary-complete sets and random draws for wider reps; floating reps judged outside a 16-epsilon band. The property's z3 clause is not attempted (other technique).",
             "trusts the __int128 oracle; NaN/inf unconstrained; band width 16 eps", "4/C04"),
+    "C12": ("pbt-values", "exhaustive comparison with an independent sieve below 2^26/2^30, adversarial 64-bit input families selected by independent code vs deterministic Miller-Rabin, rapidcheck triples for the modular helpers vs unsigned __int128, Hypothesis-generated static_asserts on mag<N>() vs sympy factorisations; libFuzzer target in the thorough tier",
+            "Exploration: exhaustive for all n below the bound, structured adversarial sets (pseudoprime families, Carmichael numbers, squares, semiprimes near 2^16/2^31/2^32, neighbours of 2^k) and random 64-bit operands beyond it. Inputs confined to a tiny region that is not one of these structures (e.g. a spurious wrap in is_perfect_square) are out of reach.",
+            "trusts the deterministic 7-base Miller-Rabin oracle, unsigned __int128 arithmetic and sympy.factorint", "4/C12"),
 }
 ENGINES = [
     {"name": "pbt-programs", "path": "auverif/hyp.py", "kind_free_text": "Hypothesis-generated translation units judged by compiler verdict / static_assert / program output against an independent Python model",
